@@ -23,7 +23,7 @@ REQUIRED = ['mode_pairs_compared', 'premise_same_draws', 'queries_checked', 'sub
 
 
 def gen_cases(tier, seed):
-    n = {'quick': 3600, 'thorough': 360000}[tier]
+    n = {'quick': 12000, 'thorough': 360000}[tier]
     out = []
     for k in range(n):
         cs = case_seed(seed, PID, k)
